@@ -208,7 +208,7 @@ def run(ctx, rep):
     rng = ctx.rng
     rep.rule = ("stacks from a structured generator over 12 operator subsets x sizes 1..64 (+ hand shapes: maximal sharing, "
                 "chains, unused rows, constant/integer-only, singular and overflowing sub-expressions), reduced and unreduced, "
-                "constants as python floats / numpy scalars, data with special values; distinct = distinct (stack, constants kind, data) "
+                "constants as python floats / numpy scalars, data with special values; AGraph level: every row evaluated alone vs with the other rows, unused rows varied; distinct = distinct (stack, constants kind, data) "
                 "canonical forms; non-trivial = at least one operator row")
     rep.assumptions = ["IEEE-754 binary64 and numpy/libm elementary functions approximate the real functions (validated per row against 40-digit mpmath, not proved)",
                        "array-valued constants (c_dim > 1) are not modelled"]
